@@ -316,6 +316,13 @@ func (s *Server) Snapshot() map[int]map[string]Entry {
 	return out
 }
 
+// SetRole changes what INFO replication reports ("master" / "slave"): a fail-over.
+func (s *Server) SetRole(role string) {
+	s.mu.Lock()
+	s.opt.Role = role
+	s.mu.Unlock()
+}
+
 // Put installs state directly (deep copied).  It panics if db is out of range.
 func (s *Server) Put(db int, key string, e Entry) {
 	s.mu.Lock()
